@@ -205,6 +205,13 @@ func (p *IdP) Authorize(location, sub string) (string, *AuthReq, error) {
 	if a.ResponseType != "code" || a.ClientID != p.ClientID || a.RedirectURI == "" {
 		return "", a, fmt.Errorf("authorization request refused: response_type=%q client_id=%q redirect_uri=%q", a.ResponseType, a.ClientID, a.RedirectURI)
 	}
+	hasOpenID := false
+	for _, sc := range strings.Split(a.Scope, " ") {
+		hasOpenID = hasOpenID || sc == "openid"
+	}
+	if !hasOpenID {
+		return "", a, fmt.Errorf("authorization request refused: scope %q does not contain openid as a space-separated token", a.Scope)
+	}
 	a.Code = p.marker("code")
 	p.codes[a.Code] = a
 	ru, err := url.Parse(a.RedirectURI)
